@@ -126,7 +126,7 @@ def x2(ctx, rid):
         for c in f.calls:
             if c.name == 'poll' or not any(t in lvl for t in prog.resolve(c)):
                 continue
-            pushes = [p for p in f.calls if p.name == 'push' and any('IndexTrait' in t or 'IndexStruct' in t for t in prog.resolve(p))]
+            pushes = prims.index_push_sites(prog, f)
             if not pushes:
                 continue
             n += 1
